@@ -16,6 +16,9 @@ Programs are JSON-able ASTs (nested lists, first element = tag) so that cases ar
              ["ref", name, arity]       named function reference name#arity
              ["dyn", f, [args]]         dynamic call f(args); an arg ["?"] = partial application
              ["array", [members]]       square array constructor (only what fn:apply needs)
+             ["arrow", e, f, a1, ...]   e => f(a1, ...); f = ["ref", name, arity] renders as a static name
+             inline params may be "x" or ["x", "xs:integer"]; ["inline", params, body, "xs:integer"] declares
+             the result type (only types the value already has: no conversion is modelled)
 
 Values: a sequence is a python list of items; an item is a tuple
   ('i', int) xs:integer | ('d', Fraction) xs:decimal | ('f', float) xs:float | ('D', float) xs:double
@@ -127,6 +130,20 @@ def num_mul(a, b):
     if tag == 'D' and (math.isinf(x) or math.isinf(y)) and (x == 0 or y == 0):
         return ('D', math.nan)
     return (tag, x * y)
+
+
+def num_idiv_mod(op, a, b):
+    """op:numeric-integer-divide / op:numeric-mod on xs:integer operands only (F&O 4.2.5, 4.2.6)"""
+    if a[0] != 'i' or b[0] != 'i':
+        raise Budget('idiv/mod are modelled for xs:integer only')
+    if b[1] == 0:
+        raise XPError('FOAR0001', 'division by zero')
+    q = abs(a[1]) // abs(b[1])
+    if (a[1] < 0) != (b[1] < 0):
+        q = -q                                   # truncation toward zero
+    if op == 'idiv':
+        return ('i', q)
+    return ('i', a[1] - q * b[1])                # the result has the sign of the dividend
 
 
 def num_div_count(a, n: int):
@@ -255,6 +272,24 @@ class FnItem:
         self.arity, self.impl, self.name = arity, impl, name
         FnItem._count += 1
         self.ident = FnItem._count
+
+
+_TYPE_TAGS = {'xs:integer': 'i', 'xs:string': 's', 'xs:boolean': 'b', 'xs:decimal': 'id', 'xs:double': 'D'}
+
+
+def matches_type(seq, t: str) -> bool:
+    """SequenceType matching for the few declared types the generators use (no conversion is modelled:
+    programs only pass values that already have the declared type)"""
+    occ = t[-1] if t[-1] in '*?+' else ''
+    base = t[:-1] if occ else t
+    if occ == '' and len(seq) != 1 or occ == '?' and len(seq) > 1 or occ == '+' and not seq:
+        return False
+    if base == 'item()':
+        return True
+    if base == 'function(*)':
+        return all(is_fn(it) for it in seq)
+    tags = _TYPE_TAGS[base]
+    return all(not is_fn(it) and it[0] in tags for it in seq)
 
 
 def is_fn(it) -> bool:
@@ -736,6 +771,17 @@ def fn_concat(ip, a):
     return [('s', ''.join(parts))]
 
 
+def fn_substring(ip, a):
+    """F&O 5.4.3: characters at positions p with round(start) <= p < round(start) + round(length)"""
+    src = as_string_arg(a[0], empty_ok=True)
+    s = '' if src is None else src[1]
+    start = round_half_up(as_double_arg(a[1]))[1]
+    if len(a) == 2:
+        return [('s', ''.join(c for p, c in enumerate(s, 1) if start <= p))]
+    end = start + round_half_up(as_double_arg(a[2]))[1]
+    return [('s', ''.join(c for p, c in enumerate(s, 1) if start <= p < end))]
+
+
 def fn_string_length(ip, a):
     it = as_string_arg(a[0], empty_ok=True)
     return [('i', 0 if it is None else len(it[1]))]
@@ -867,7 +913,8 @@ BUILTINS = {
     ('string-join', 1): fn_string_join, ('string-join', 2): fn_string_join,
     ('not', 1): fn_not, ('boolean', 1): fn_boolean, ('true', 0): fn_true, ('false', 0): fn_false,
     ('data', 1): fn_data, ('string', 1): fn_string, ('round', 1): fn_round, ('abs', 1): fn_abs,
-    ('concat', 2): fn_concat, ('concat', 3): fn_concat, ('concat', 4): fn_concat,
+    ('concat', 2): fn_concat, ('concat', 3): fn_concat, ('concat', 4): fn_concat, ('concat', 5): fn_concat,
+    ('substring', 2): fn_substring, ('substring', 3): fn_substring,
     ('string-length', 1): fn_string_length, ('upper-case', 1): fn_upper_case, ('lower-case', 1): fn_lower_case,
     ('for-each', 2): fn_for_each, ('filter', 2): fn_filter, ('fold-left', 3): fn_fold_left,
     ('fold-right', 3): fn_fold_right, ('for-each-pair', 3): fn_for_each_pair, ('apply', 2): fn_apply,
@@ -885,6 +932,11 @@ class Interp:
         self.budget = budget
         self.order_dependent = False      # an implementation-dependent order was produced somewhere
         self.inexact_sum = None           # (exact rational, error bound) of an order-dependent float sum
+        self._serial = 0
+        self._latest = {}                 # id(creating AST node) -> (serial, environment signature)
+        self.stale_calls = {}             # kind -> calls of a function item made after the SAME expression
+        #                                   was evaluated again with a different environment
+        self.multi_created = 0            # evaluations of an already evaluated function expression
         self.calls = 0                    # dynamic function calls performed
         self.max_depth = 0
         self._depth = 0
@@ -994,6 +1046,8 @@ class Interp:
         b = self._arith_operand(self.ev(n[3], env, focus))
         if a is None or b is None:
             return []
+        if n[1] in ('idiv', 'mod'):
+            return [num_idiv_mod(n[1], a, b)]
         return [{'+': num_add, '-': num_sub, '*': num_mul}[n[1]](a, b)]
 
     def ev_vcmp(self, n, env, focus):
@@ -1095,25 +1149,41 @@ class Interp:
         return out
 
     # -- functions -----------------------------------------------------------
-    def _partial(self, f: FnItem, args, env, focus):
+    def _partial(self, f: FnItem, args, env, focus, origin=None, kind='partial-dyn'):
         """args: AST list with ["?"] placeholders; fixed arguments are evaluated now"""
         if len(args) != f.arity:
             raise XPError('XPTY0004', 'partial application: wrong number of arguments')
         fixed = [None if a[0] == '?' else self.ev(a, env, focus) for a in args]
         holes = [i for i, a in enumerate(fixed) if a is None]
+        mark = self._created(origin, kind, [f.ident] + [None if v is None else _sig(v) for v in fixed])
 
         def impl(ip, call_args, f=f, fixed=fixed, holes=holes):
+            ip._called(mark)
             full = list(fixed)
             for i, v in zip(holes, call_args):
                 full[i] = v
             return ip.call(f, full)
         return FnItem(len(holes), impl, name=None)
 
+    def _created(self, origin, kind, sig):
+        self._serial += 1
+        key = id(origin)
+        if key in self._latest:
+            self.multi_created += 1
+        self._latest[key] = (self._serial, sig)
+        return (key, kind, self._serial, sig)
+
+    def _called(self, mark):
+        key, kind, serial, sig = mark
+        last_serial, last_sig = self._latest[key]
+        if last_serial != serial and last_sig != sig:
+            self.stale_calls[kind] = self.stale_calls.get(kind, 0) + 1
+
     def ev_call(self, n, env, focus):
         name, args = n[1], n[2]
         impl = self.builtin(name, len(args))
         if any(a[0] == '?' for a in args):
-            return [self._partial(FnItem(len(args), impl, name), args, env, focus)]
+            return [self._partial(FnItem(len(args), impl, name), args, env, focus, n, 'partial-static')]
         if name in ('count', 'empty', 'exists') and args[0][0] == 'call' and \
                 args[0][1] in ('distinct-values', 'unordered'):
             # cardinality of an implementation-dependent order / choice of representative is well defined
@@ -1126,16 +1196,42 @@ class Interp:
 
     def ev_inline(self, n, env, focus):
         params, body = n[1], n[2]
+        names = [p if isinstance(p, str) else p[0] for p in params]
+        types = [None if isinstance(p, str) else p[1] for p in params]
+        rtype = n[3] if len(n) > 3 else None
         captured = dict(env)              # the bindings in scope where the function is created
+        mark = self._created(n, 'inline', [(k, _sig(v)) for k, v in sorted(captured.items())])
 
-        def impl(ip, call_args, params=params, body=body, captured=captured):
+        def impl(ip, call_args, names=names, body=body, captured=captured):
+            ip._called(mark)
             e = dict(captured)
-            for p, v in zip(params, call_args):
+            for p, t, v in zip(names, types, call_args):
+                if t is not None and not matches_type(v, t):
+                    raise XPError('XPTY0004', f'argument ${p} does not match {t}')
                 e[p] = v
-            return ip.ev(body, e, None)  # the focus is absent inside a function body
+            res = ip.ev(body, e, None)  # the focus is absent inside a function body
+            if rtype is not None and not matches_type(res, rtype):
+                raise XPError('XPTY0004', f'result does not match {rtype}')
+            return res
         return [FnItem(len(params), impl)]
 
     def ev_ref(self, n, env, focus):
+        if n[2] == 0 and n[1] in ('string', 'position', 'last'):
+            # a reference to a context-dependent function captures the focus where it is evaluated
+            # (XPath 3.1 3.1.6: "the dynamic context of the named function reference")
+            if focus is None:
+                raise XPError('XPDY0002', 'context item is absent')
+            captured = focus
+            mark = self._created(n, 'focus-ref', [canon_item(focus[0]) if not is_fn(focus[0]) else 'fn', focus[1], focus[2]])
+
+            def impl(ip, call_args, name=n[1], captured=captured):
+                ip._called(mark)
+                if name == 'position':
+                    return [('i', captured[1])]
+                if name == 'last':
+                    return [('i', captured[2])]
+                return fn_string(ip, [[captured[0]]])
+            return [FnItem(0, impl, n[1])]
         return [FnItem(n[2], self.builtin(n[1], n[2]), n[1])]
 
     def ev_dyn(self, n, env, focus):
@@ -1147,8 +1243,16 @@ class Interp:
         if len(args) != f.arity:
             raise XPError('XPTY0004', 'dynamic call: arity mismatch')
         if any(a[0] == '?' for a in args):
-            return [self._partial(f, args, env, focus)]
+            return [self._partial(f, args, env, focus, n)]
         return self.call(f, [self.ev(a, env, focus) for a in args])
+
+    def ev_arrow(self, n, env, focus):
+        """["arrow", e, f, a1, ...]:  e => f(a1, ...)  ==  f(e, a1, ...)   (XPath 3.1 3.16)"""
+        first = self.ev(n[1], env, focus)
+        fs = self.ev(n[2], env, focus)
+        if len(fs) != 1 or not is_fn(fs[0]):
+            raise XPError('XPTY0004', 'arrow: function item required')
+        return self.call(fs[0], [first] + [self.ev(a, env, focus) for a in n[3:]])
 
     def ev_array(self, n, env, focus):
         return [('A', tuple(tuple(self.ev(m, env, focus)) for m in n[1]))]
@@ -1163,6 +1267,11 @@ def evaluate(ast, version='31', variables=None, budget=20000):
 # --------------------------------------------------------------------------
 # canonical JSON form of values
 # --------------------------------------------------------------------------
+def _sig(seq):
+    """hashable-free signature of a value (function items by identity)"""
+    return [('fn', it.ident) if is_fn(it) else canon_item(it) for it in seq]
+
+
 def canon_item(it):
     if is_fn(it):
         return ['fn', it.arity]
@@ -1249,13 +1358,17 @@ def render(n) -> str:
     if t == '?':
         return '?'
     if t == 'inline':
-        return 'function(' + ', '.join('$' + p for p in n[1]) + ') { ' + render(n[2]) + ' }'
+        ps = ', '.join('$' + p if isinstance(p, str) else f'${p[0]} as {p[1]}' for p in n[1])
+        return f'function({ps})' + (f' as {n[3]}' if len(n) > 3 else '') + ' { ' + render(n[2]) + ' }'
     if t == 'ref':
         return f'{n[1]}#{n[2]}'
     if t == 'dyn':
         return f'{_primary(n[1])}(' + ', '.join(render(a) for a in n[2]) + ')'
     if t == 'array':
         return '[' + ', '.join(render(m) for m in n[1]) + ']'
+    if t == 'arrow':
+        target = n[2][1] if n[2][0] == 'ref' else _primary(n[2])
+        return f'({render(n[1])} => {target}(' + ', '.join(render(a) for a in n[3:]) + '))'
     raise ValueError(f'unknown AST node {t!r}')
 
 
@@ -1453,6 +1566,23 @@ def self_test():
     assert val(['call', 'sort', [_I(1, -2, 5, 10, -10, 10, 8), ['empty'], ['ref', 'abs', 1]]]) == \
         ints(1, -2, 5, 8, 10, -10, 10)
     assert val(['call', 'sort', [_I(1, 4, 6, 5, 3)]]) == ints(1, 3, 4, 5, 6)
+    # F&O 4.2.5 / 4.2.6 / 5.4.3 examples
+    assert val(['arith', 'idiv', ['int', -7], ['int', 2]]) == ints(-3) == val(['arith', 'idiv', ['int', 7], ['int', -2]])
+    assert val(['arith', 'mod', ['int', 10], ['int', 3]]) == ints(1) and val(['arith', 'mod', ['int', -7], ['int', 2]]) == ints(-1)
+    assert val(['call', 'substring', [['str', 'motor car'], ['int', 6]]]) == strs(' car')
+    assert val(['call', 'substring', [['str', 'metadata'], ['int', 4], ['int', 3]]]) == strs('ada')
+    assert val(['call', 'substring', [['str', '12345'], ['dec', '1.5'], ['dec', '2.6']]]) == strs('234')
+    assert val(['call', 'substring', [['str', '12345'], ['int', 0], ['int', 3]]]) == strs('12')
+    assert val(['call', 'substring', [['str', '12345'], ['int', 5], ['int', -3]]]) == strs('')
+    assert val(['call', 'substring', [['str', '12345'], ['dbl', '-INF'], ['dbl', 'INF']]]) == strs('')
+    ipx = Interp()
+    ipx.run(clo)
+    assert ipx.stale_calls == {'inline': 1} and ipx.multi_created == 1
+    assert val(['arrow', _I(1, 2, 3), ['ref', 'count', 1]]) == ints(3)
+    assert render(['arrow', _I(1, 2), ['ref', 'subsequence', 2], ['int', 2]]) == '((1, 2) => subsequence(2))'
+    assert val(['arrow', _I(1, 2), ['ref', 'subsequence', 2], ['int', 2]]) == ints(2)
+    assert val(['map', ['map', _I(5, 6, 7), ['ref', 'position', 0]], ['dyn', ['ctx'], []]]) == ints(1, 2, 3)
+    assert val(['map', ['map', _I(5, 6), ['ref', 'string', 0]], ['dyn', ['ctx'], []]]) == strs('5', '6')
     assert render(['filter', ['var', 'x'], ['int', 1]]) == '$x[1]'
     assert render(['filter', ['int', 3], ['int', 1]]) == '(3)[1]'
     assert render(['dyn', ['inline', [], ['int', 1]], []]) == '(function() { 1 })()'
